@@ -9,6 +9,7 @@
 
 #include <rapidcheck.h>
 
+#include <csignal>
 #include <cstdio>
 #include <cstdlib>
 #include <cstring>
@@ -395,6 +396,7 @@ dump_case ()
   f << case_text (g_crash_cfg, g_cur_case);
 }
 static void on_term () { dump_case (); std::fprintf (stderr, "VERIF-TERMINATE\n"); std::_Exit (78); }
+static void on_sig (int s) { dump_case (); std::fprintf (stderr, "VERIF-SIGNAL %d (abort/assert or crash inside the library)\n", s); std::_Exit (79); }
 
 struct Runner
 {
@@ -441,6 +443,7 @@ int
 main (int argc, char **argv)
 {
   std::set_terminate (on_term);
+  std::signal (SIGABRT, on_sig); std::signal (SIGSEGV, on_sig); std::signal (SIGFPE, on_sig); std::signal (SIGBUS, on_sig);
   if (__sanitizer_set_death_callback) __sanitizer_set_death_callback (dump_case);
   std::string cfgname, mode = "grid", out, replay_path, replay_out;
   unsigned long long seed = 1;
